@@ -2,6 +2,7 @@ import Driver.Proto
 import Driver.SorterCmd
 import Driver.EngineCmd
 import Driver.TreeCmd
+import Driver.ProvCmd
 /-! `driver`: one request per line on stdin, one answer per line on stdout. -/
 namespace Driver
 
@@ -9,6 +10,7 @@ structure St where
   sorter : SorterSt := {}
   engine : EngineSt := {}
   tree : TreeSt := {}
+  prov : ProvSt := {}
 
 def step (st : St) (line : String) : St × String :=
   let (cmd, args) := parseLine line
@@ -21,6 +23,9 @@ def step (st : St) (line : String) : St × String :=
   else if cmd.startsWith "tree." || cmd.startsWith "args." then
     let (s, out) := treeHandle st.tree cmd args
     ({ st with tree := s }, out)
+  else if cmd.startsWith "prov." then
+    let (s, out) := provHandle st.prov cmd args
+    ({ st with prov := s }, out)
   else if cmd == "ping" then (st, "pong")
   else (st, "bad-op")
 
